@@ -4,7 +4,13 @@ CONSTANTS MaxWraps = 5
           MaxCalls = 5
           Wide = TRUE
           FixedCode = TRUE
-          Modes = {"bind", "heap", "memo", "chain"}
+          Modes = {"bind", "heap", "memo", "chain", "exc", "args", "deco"}
+          MaxExcChain = 2
+          MaxBindings = 2
+          MaxArgSteps = 0
+          MaxDecoObjs = 4
+          MaxDecoCalls = 0
+          TwoDecos = TRUE
 INIT Init
 NEXT Next
 INVARIANT BindLaws
@@ -16,9 +22,16 @@ INVARIANT FallbackIffRaises
 INVARIANT DropsExactlyUndeclared
 INVARIANT WrapTwiceIsOnce
 INVARIANT NormalFormKeepsBehaviour
+INVARIANT ExcLaws
+INVARIANT ReplayIsTheCall
+INVARIANT ArgBindings
+INVARIANT DecoLaws
+INVARIANT DecoratedNormal
 INVARIANT NoDoubleWrapping
 INVARIANT MechRefinesMC
 INVARIANT MemoOncePerKey
 PROPERTY OnlyNewObject
 PROPERTY MechOnlyNewObject
 PROPERTY MemoStable
+PROPERTY ArgumentsUntouched
+PROPERTY DecoratedStable
